@@ -22,6 +22,11 @@ interval/simple_interval.rs) -- sign discipline, decided without evaluating any 
     into_resize_unsigned / into_zero_extend (an unsigned distance) must not be the operand of
     signed_add_overflow_checked / signed_sub_overflow_checked: for distances >= 2^(n-1) the signed
     reading is negative and the rounding goes the wrong way (stride >= 128 for 1-byte values).
+ R6 unsigned bounds by sign cases: IntervalDomain::add_unsigned_{less,greater}_equal_bound reduce the unsigned
+    comparison to signed refinements by a case analysis on sign bits. Values are touched only through comparisons,
+    so the methods are decided over the finite set of sign cases (bound/start/end negative or not, end < bound):
+    per case and per sign class of members the composed signed refinements must keep every member that satisfies
+    the unsigned comparison.
 """
 from .lib import numflow as NF
 from .lib import sym as S
@@ -310,3 +315,171 @@ def run(run):
         run.floor("R5 signed overflow-checked sites", nsites, 8)
 
     run.guarded("R5", r5)
+
+
+# ---------------------------------------------------------------------------- R6: unsigned bounds by sign cases
+def _r6(run, F):
+    """add_unsigned_{less,greater}_equal_bound reduce an unsigned comparison to signed refinements by a case analysis
+    on the sign bits of bound / start / end. Values are touched only through comparisons, so the method is decided
+    over the finite set of sign cases: per case and per sign class of interval members (negative / non-negative) the
+    composed signed refinements must keep every member that satisfies the unsigned comparison."""
+    run.rule("R6", "unsigned bounds: in every sign case the signed refinements keep all members satisfying the unsigned comparison")
+    ALL, NONE, PART = "all", "none", "part"
+
+    def arg_class(a):
+        a = S.value(a)
+        if a[0] == "var" and a[1] == "bound":
+            return "bound"
+        if is_call(a, "zero"):
+            return "zero"
+        if (a[0] == "neg" and is_call(S.value(a[1]), "one")) or (is_call(a, "neg") and a[2] and is_call(S.value(a[2][0]), "one")):
+            return "minus1"
+        return None
+
+    def atom(c):
+        c = S.value(c)
+        while is_call(c, ("unwrap", "to_bool")) and c[2]:
+            c = S.value(c[2][0])
+        if is_call(c, "sign_bit") and c[2]:
+            x = fmt(c[2][0])
+            return {"bound": "Bn", "self.interval.start": "Sn", "self.interval.end": "En"}.get(x)
+        if is_call(c, "checked_slt") and len(c[2]) == 2 and fmt(c[2][0]) == "self.interval.end" and fmt(c[2][1]) == "bound":
+            return "Elt"
+        if is_call(c, "checked_sgt") and len(c[2]) == 2 and fmt(c[2][0]) == "bound" and fmt(c[2][1]) == "self.interval.end":
+            return "Elt"
+        return None
+
+    def ev_bool(c, asg):
+        c = S.value(c)
+        if c[0] == "not":
+            v = ev_bool(c[1], asg)
+            return None if v is None else (not v)
+        if c[0] in ("and", "or"):
+            a, b = ev_bool(c[1], asg), ev_bool(c[2], asg)
+            if a is None or b is None:
+                return None
+            return (a and b) if c[0] == "and" else (a or b)
+        a = atom(c)
+        return asg.get(a) if a else None
+
+    def ev(t, asg, acc):
+        """-> list of constraints (kind, argclass) or None when outside the vocabulary"""
+        t0 = t
+        if t[0] == "seq":
+            for st in t[1]:
+                if st[0] == "assign" and fmt(st[1]) == "self":
+                    r = ev(st[2], asg, acc)
+                    if r is None:
+                        return None
+                elif st[0] in ("letstmt",):
+                    return None
+                else:
+                    return None
+            return ev(t[2], asg, acc)
+        if t[0] == "try":
+            return ev(t[1], asg, acc)
+        if t[0] == "ite":
+            if acc:
+                return None      # a decision after the interval was already refined
+            v = ev_bool(t[1], asg)
+            if v is None:
+                return None
+            return ev(t[2] if v else t[3], asg, acc)
+        if is_call(t, ("add_signed_less_equal_bound", "add_signed_greater_equal_bound")) and len(t[2]) == 2 and fmt(t[2][0]) == "self":
+            ac = arg_class(t[2][1])
+            if ac is None:
+                return None
+            acc.append(("le" if "less" in t[1] else "ge", ac))
+            return acc
+        if t[0] == "adt" and t[2] == "Ok" and fmt(dict(t[3])["0"]) == "self":
+            return acc
+        return None
+
+    def effect(con, cls, Bn):
+        kind, ac = con
+        if ac == "bound":
+            if kind == "le":
+                return ("cmp_le" if Bn else ALL) if cls == "neg" else (NONE if Bn else "cmp_le")
+            return ("cmp_ge" if Bn else NONE) if cls == "neg" else (ALL if Bn else "cmp_ge")
+        if ac == "zero":
+            if kind == "ge":
+                return NONE if cls == "neg" else ALL
+            return ALL if cls == "neg" else PART
+        if ac == "minus1":
+            if kind == "le":
+                return ALL if cls == "neg" else NONE
+            return PART if cls == "neg" else ALL
+        return PART
+
+    def compose(effs):
+        cur = ALL
+        for e in effs:
+            if cur == NONE or e == NONE:
+                cur = NONE
+            elif e == ALL:
+                pass
+            elif cur == ALL:
+                cur = e
+            elif cur == e:
+                pass
+            else:
+                cur = PART
+        return cur
+
+    def required(which, cls, asg):
+        Bn = asg["Bn"]
+        if which == "le":      # x <=u bound
+            if cls == "neg":
+                return "cmp_le" if Bn else NONE
+            return ALL if Bn else "cmp_le"
+        if cls == "neg":       # x >=u bound
+            return "cmp_ge" if Bn else ALL
+        if Bn:
+            return NONE
+        return NONE if asg.get("Elt") else "cmp_ge"
+
+    for name, which in (("add_unsigned_less_equal_bound", "le"), ("add_unsigned_greater_equal_bound", "ge")):
+        fn = F.fn(name, adt="IntervalDomain", trait="SpecializeByConditional")
+        t = S.Sym(F).term(fn["body"])
+        site = F.loc(fn["body"])
+        bad, und, ncases = [], [], 0
+        for Bn in (False, True):
+            for Sn in (False, True):
+                for En in (False, True):
+                    if En and not Sn:
+                        continue
+                    elts = [True] if (En and not Bn) else [False] if (Bn and not En) else [False, True]
+                    for Elt in elts:
+                        asg = {"Bn": Bn, "Sn": Sn, "En": En, "Elt": Elt}
+                        ncases += 1
+                        cons = ev(t, asg, [])
+                        desc = "bound %s, start %s, end %s%s" % ("<0" if Bn else ">=0", "<0" if Sn else ">=0", "<0" if En else ">=0", ", end < bound" if Elt else "")
+                        if cons is None:
+                            und.append(desc)
+                            continue
+                        for cls, present in (("neg", Sn), ("nonneg", not En)):
+                            if not present:
+                                continue
+                            kept = compose([effect(c, cls, Bn) for c in cons])
+                            req = required(which, cls, asg)
+                            ok = req == NONE or kept == ALL or kept == req
+                            if not ok and kept == PART:
+                                und.append(desc + " (%s members: partial refinement)" % cls)
+                            elif not ok:
+                                bad.append("%s: the %s members of the interval that satisfy x %s bound (%s) are %s by %s" % (desc, "negative" if cls == "neg" else "non-negative", "<=u" if which == "le" else ">=u", "all of them" if req == ALL else "those with x %s bound" % ("<=s" if req == "cmp_le" else ">=s"), "all removed" if kept == NONE else "cut by the wrong comparison", cons))
+        key = "%s|sign-cases" % name
+        if bad:
+            run.violated("R6", key, "; ".join(bad[:2]) + (" (+%d more cases)" % (len(bad) - 2) if len(bad) > 2 else ""), site)
+        elif und:
+            run.undecided("R6", key, "%d of %d sign cases outside the vocabulary, e.g. %s" % (len(und), ncases, und[0]), site)
+        else:
+            run.holds("R6", key, "%d sign cases" % ncases, site)
+
+
+_run_r1_r5 = run
+
+
+def run(run):  # noqa: F811
+    _run_r1_r5(run)
+    F = run.facts()
+    run.guarded("R6", lambda: _r6(run, F))
